@@ -467,6 +467,7 @@ var goroutineHeader = regexp.MustCompile(`^goroutine (\d+) \[([^\]]*)\]:`)
 
 type bubbleG struct {
 	id, state string
+	bubble    bool
 	frames    []string // function names, innermost first
 	cloak     string   // innermost frame in the code under test ("" if none)
 }
@@ -474,13 +475,17 @@ type bubbleG struct {
 func bubbleGoroutines() []bubbleG {
 	buf := make([]byte, 16<<20)
 	n := runtime.Stack(buf, true)
+	return parseGoroutines(string(buf[:n]), func(g bubbleG) bool { return g.bubble })
+}
+
+func parseGoroutines(dump string, keep func(bubbleG) bool) []bubbleG {
 	var out []bubbleG
-	for _, blk := range strings.Split(string(buf[:n]), "\n\n") {
+	for _, blk := range strings.Split(dump, "\n\n") {
 		m := goroutineHeader.FindStringSubmatch(blk)
-		if m == nil || !strings.Contains(m[2], "synctest bubble") {
+		if m == nil {
 			continue
 		}
-		g := bubbleG{id: m[1], state: strings.TrimSpace(strings.SplitN(m[2], ",", 2)[0])}
+		g := bubbleG{id: m[1], state: strings.TrimSpace(strings.SplitN(m[2], ",", 2)[0]), bubble: strings.Contains(m[2], "synctest bubble")}
 		lines := strings.Split(blk, "\n")
 		for i := 1; i+1 < len(lines); i += 2 {
 			fn := lines[i]
@@ -496,7 +501,9 @@ func bubbleGoroutines() []bubbleG {
 				g.cloak = fn + " (" + filepath.Base(strings.SplitN(file, " ", 2)[0]) + ")"
 			}
 		}
-		out = append(out, g)
+		if keep(g) {
+			out = append(out, g)
+		}
 	}
 	sort.Slice(out, func(i, j int) bool { return out[i].id < out[j].id })
 	return out
@@ -528,6 +535,38 @@ func wedged() (bool, []bubbleG) {
 		}
 	}
 	return onLock, b
+}
+
+// StuckForGood takes two goroutine dumps `apart` apart and reports whether every goroutine that is inside the code
+// under test is blocked (none running, runnable or in a system call) in exactly the same place in both - with a
+// summary of where. It is the evidence real-time checks use, together with a stalled progress counter, before they
+// call a deadlock; wall-clock time alone is never a verdict.
+func StuckForGood(apart time.Duration) (bool, string) {
+	snap := func() (string, []bubbleG) {
+		buf := make([]byte, 32<<20)
+		n := runtime.Stack(buf, true)
+		gs := parseGoroutines(string(buf[:n]), func(g bubbleG) bool { return g.cloak != "" })
+		return wedgeKey(gs), gs
+	}
+	ka, _ := snap()
+	time.Sleep(apart)
+	kb, gs := snap()
+	if ka != kb || len(gs) == 0 {
+		return false, ""
+	}
+	seen := map[string]int{}
+	for _, g := range gs {
+		if g.state == "running" || g.state == "runnable" || g.state == "syscall" || strings.HasPrefix(g.state, "sleep") || g.state == "IO wait" {
+			return false, ""
+		}
+		seen[g.state+" in "+g.cloak]++
+	}
+	var parts []string
+	for k, n := range seen {
+		parts = append(parts, fmt.Sprintf("%dx %s", n, k))
+	}
+	sort.Strings(parts)
+	return true, strings.Join(parts, "; ")
 }
 
 func wedgeSeconds() time.Duration {
